@@ -9,7 +9,7 @@ Generated (Hypothesis, every choice is part of the JSON case)
          mass absent (=> derived from the layers) or given.  The root may be built under a world name that
          differs from config['name'] (what `build_world('io_simple')` does for the shipped file whose
          config name is 'Io_Simple').
-  pack   every shipped non-BurnMan `TidalPy/WorldPack/*.toml` (18 entries, enumerated in `fixed_cases`,
+  pack   every shipped non-BurnMan `TidalPy/WorldPack/*.toml` (17 entries, enumerated in `fixed_cases`,
          the list is verified against the directory in `selftest`), layered and not.
   chain  1..6 derivations applied one after the other: `build_from_world` (new_config = {} | albedo |
          one layer's density | one layer's slices; the new name absent, given as argument or inside
@@ -85,7 +85,7 @@ LEVEL_TEXT = ('Generated-input exploration: every shipped non-BurnMan world and 
 LEVEL_NOTE = ('Trusts numpy/IEEE doubles, copy.deepcopy for the before-call snapshots and CPython sys.settrace line events '
               '(termination = more than 1e5 traced lines inside world_builder.py; a normal call needs < 300). BurnMan worlds are '
               'out of scope (BurnMan not installed).')
-CASES = {'quick': 3600, 'thorough': 300000}
+CASES = {'quick': 3600, 'thorough': 200000}
 SHARDS = {'quick': 12, 'thorough': 16}
 TIMEOUT = {'quick': 600, 'thorough': 4 * 3600}
 SHRINK_BUDGET = (400, 120)
@@ -98,7 +98,7 @@ LINE_BUDGET = 100000
 
 RULE = ('Hypothesis draws a root (generated 1-6-layer layered config: radius 10^[4,8], layer tops from cumulative weights, '
         'type, density, slices 5..60, geometry/mass specification style, world mass derived|given, root name from a pool with '
-        '_variant names; or one of the 18 shipped non-BurnMan WorldPack entries) and a chain of 1-6 derivations '
+        '_variant names; or one of the 17 shipped non-BurnMan WorldPack entries) and a chain of 1-6 derivations '
         '(build_from_world with {}|albedo|density|slices change and name absent|argument|config, same|pool; '
         'scale_from_world with factor 10^[-1,1]). Non-trivial = root has >= 3 layers or the chain has >= 2 steps; '
         'distinct = distinct case hash.')
@@ -144,7 +144,7 @@ def _step_strategy(layered):
 def _gen_case(draw):
     n = draw(st.sampled_from([1, 2, 2, 3, 3, 4, 5, 6]))
     mass_given = draw(st.sampled_from([False, False, False, True]))
-    plain = draw(st.sampled_from([True, True, False]))     # plain = shipped-template style (radius + density)
+    plain = draw(st.sampled_from([True, True, True, False]))     # plain = shipped-template style (radius + density)
     layers = []
     for i in range(n):
         geo_choices = ['radius'] if plain else (GEO_SPECS if (i == n - 1 and i > 0) else GEO_SPECS[:3])
@@ -161,7 +161,7 @@ def _gen_case(draw):
     return {
         'kind': 'gen',
         'name': draw(st.sampled_from(NAME_POOL)),
-        'alias': draw(st.sampled_from([None, None, None, None, 'w_alias'])),
+        'alias': draw(st.sampled_from([None] * 7 + ['w_alias'])),
         'log_radius': draw(st.floats(4.0, 8.0)),
         'world_density': draw(st.floats(500.0, 20000.0)) if mass_given else None,
         'layers': layers,
@@ -176,7 +176,7 @@ def _pack_case(draw):
     return {
         'kind': 'pack',
         'entry': entry,
-        'alias': draw(st.booleans()),
+        'alias': draw(st.sampled_from([False, False, False, True])),
         'chain': draw(st.lists(_step_strategy(layered), min_size=1, max_size=6)),
     }
 
